@@ -5,6 +5,7 @@ From Coq Require Import ZArith List Bool Reals Lia Lra.
 From FT.lib Require Import Num Arr ArrLemmas Lower NumArr.
 From FT.gen Require Import Common Interp2d Interp3d Vinterp2d Vinterp3d FteikCommon Fteik2d Fteik3d Ray2d Ray3d.
 From FT.proofs Require Import Sweep2dProofs LayeredR.
+From FT.proofs Require InitSym.
 Import ListNotations.
 Open Scope R_scope.
 
@@ -52,6 +53,126 @@ Theorem C02_layered_grid_line_upper :
        get 0 tt [i0; j] = 0 -> get 0 tt [(i0 + Z.of_nat n)%Z; j] <= zsum (fun c : Z => dz * s c) i0 n.
 Proof. exact @LayeredR.layered_grid_line_upper. Qed.
 
+(* off-node sources: the generated source-line initialisation is (by conversion) corners + east, west, down, up phases; the east phase accumulates slow[zsi, j-1] for the edge between nodes j-1 and j *)
+Theorem C02_init_is_four_copies :
+  forall (T : Type) (H : Num T) (dx dz : T) (grad : bool) (iflag nx nz : Z) (slow tt_v ttgrad : arr T)
+         (ttsgn : arr Z) (vzero xsa : T) (xsi : Z) (zsa : T) (zsi : Z),
+       fteik2d_p2 dx dz grad iflag nx nz slow tt_v ttgrad ttsgn vzero xsa xsi zsa zsi =
+       (if iflag =? 2
+        then
+         let td := full [Z.max nz nx] Fteik2d.Big in
+         let dzu := nabs (nsub zsa (nofZ zsi)) in
+         let dzd := nsub (nofZ 1) dzu in
+         let dxw := nabs (nsub xsa (nofZ xsi)) in
+         let dxe := nsub (nofZ 1) dxw in
+         let c := InitSym.init_corners dx dz grad vzero xsa xsi zsa zsi tt_v ttgrad in
+         let st := InitSym.east_phase dx dz grad nx slow vzero xsa xsi zsa zsi dzu dzd dxe (td, fst c, ttsgn) in
+         let st0 := InitSym.west_phase dx dz grad slow vzero xsa xsi zsa zsi dzu dzd dxw st in
+         let st1 :=
+           InitSym.down_phase dx dz grad nz slow vzero xsa xsi zsa zsi dxw dxe dzd
+             (fill (fst (fst st0)) Fteik2d.Big, snd (fst st0), snd st0) in
+         let st2 := InitSym.up_phase dx dz grad slow vzero xsa xsi zsa zsi dxw dxe dzu st1 in
+         (snd (fst st2), snd c, snd st2)
+        else (set tt_v [ntrunc zsa; ntrunc xsa] (nofZ 0), ttgrad, ttsgn)).
+Proof. exact @InitSym.fteik2d_p2_decompose. Qed.
+
+(* the west phase reads exactly the mirror-image cells of the east phase (so the cell between nodes j and j+1 is cell j there as well), heterogeneous media *)
+Theorem C02_init_west_reads_the_mirror_cells :
+  forall (nz nx M M' : Z) (dx dz : R) (grad : bool) (slow : arr R) (vzero xsa : R) (xsi : Z) 
+         (zsa : R) (zsi : Z) (dzu dzd dxe : R) (td td' tt : arr R) (sg : arr Z),
+       wf slow ->
+       shape slow = [(nz - 1)%Z; (nx - 1)%Z] ->
+       wf tt ->
+       shape tt = [nz; nx] ->
+       (grad = true -> wf sg /\ shape sg = [nz; nx; 2%Z]) ->
+       wf td ->
+       wf td' ->
+       shape td = [M] ->
+       shape td' = [M'] ->
+       (nx <= M)%Z ->
+       (nx <= M')%Z ->
+       (0 <= zsi < nz - 1)%Z ->
+       (0 <= xsi < nx - 1)%Z ->
+       let r := InitSym.east_phase dx dz grad nx slow vzero xsa xsi zsa zsi dzu dzd dxe (td, tt, sg) in
+       let r' :=
+         InitSym.west_phase dx dz grad (InitSym.mirror_x (nz - 1) (nx - 1) slow) vzero (IZR (nx - 1) - xsa)
+           (nx - 2 - xsi) zsa zsi dzu dzd dxe (td', InitSym.mirror_x nz nx tt, InitSym.mirror_sgn_x nz nx sg) in
+       (forall i j : Z,
+        (0 <= i < nz)%Z -> (0 <= j < nx)%Z -> get 0 (snd (fst r')) [i; j] = get 0 (snd (fst r)) [i; (nx - 1 - j)%Z]) /\
+       (grad = true ->
+        forall i j : Z,
+        (0 <= i < nz)%Z ->
+        (0 <= j < nx)%Z ->
+        get 0%Z (snd r') [i; j; 0%Z] = get 0%Z (snd r) [i; (nx - 1 - j)%Z; 0%Z] /\
+        get 0%Z (snd r') [i; j; 1%Z] = (- get 0 (snd r) [i; nx - 1 - j; 1])%Z).
+Proof. exact @InitSym.west_is_mirror_of_east_explicit. Qed.
+
+(* and the down phase the transposed ones, with dz for dx *)
+Theorem C02_init_down_reads_the_transposed_cells :
+  forall (nz nx M M' : Z) (dx dz : R) (grad : bool) (slow : arr R) (vzero xsa : R) (xsi : Z) 
+         (zsa : R) (zsi : Z) (dzu dzd dxe : R) (td td' tt : arr R) (sg : arr Z),
+       wf slow ->
+       shape slow = [(nz - 1)%Z; (nx - 1)%Z] ->
+       wf tt ->
+       shape tt = [nz; nx] ->
+       (grad = true -> wf sg /\ shape sg = [nz; nx; 2%Z]) ->
+       wf td ->
+       wf td' ->
+       shape td = [M] ->
+       shape td' = [M'] ->
+       (nx <= M)%Z ->
+       (nx <= M')%Z ->
+       (0 <= zsi < nz - 1)%Z ->
+       (0 <= xsi < nx - 1)%Z ->
+       let r := InitSym.east_phase dx dz grad nx slow vzero xsa xsi zsa zsi dzu dzd dxe (td, tt, sg) in
+       let r' :=
+         InitSym.down_phase dz dx grad nx (InitSym.transpose (nz - 1) (nx - 1) slow) vzero zsa zsi xsa xsi dzu dzd dxe
+           (td', InitSym.transpose nz nx tt, InitSym.transpose_sgn nz nx sg) in
+       (forall i j : Z, (0 <= i < nz)%Z -> (0 <= j < nx)%Z -> get 0 (snd (fst r')) [j; i] = get 0 (snd (fst r)) [i; j]) /\
+       (grad = true ->
+        forall i j : Z,
+        (0 <= i < nz)%Z ->
+        (0 <= j < nx)%Z ->
+        get 0%Z (snd r') [j; i; 1%Z] = get 0%Z (snd r) [i; j; 0%Z] /\
+        get 0%Z (snd r') [j; i; 0%Z] = get 0%Z (snd r) [i; j; 1%Z]).
+Proof. exact @InitSym.down_is_transpose_of_east_explicit. Qed.
+
+(* up / down *)
+Theorem C02_init_up_reads_the_mirror_cells :
+  forall (nz nx M M' : Z) (dx dz : R) (grad : bool) (slow : arr R) (vzero xsa : R) (xsi : Z) 
+         (zsa : R) (zsi : Z) (dxw dxe dzd : R) (td td' tt : arr R) (sg : arr Z),
+       wf slow ->
+       shape slow = [(nz - 1)%Z; (nx - 1)%Z] ->
+       wf tt ->
+       shape tt = [nz; nx] ->
+       (grad = true -> wf sg /\ shape sg = [nz; nx; 2%Z]) ->
+       wf td ->
+       wf td' ->
+       shape td = [M] ->
+       shape td' = [M'] ->
+       (nz <= M)%Z ->
+       (nz <= M')%Z ->
+       (0 <= zsi < nz - 1)%Z ->
+       (0 <= xsi < nx - 1)%Z ->
+       let r := InitSym.down_phase dx dz grad nz slow vzero xsa xsi zsa zsi dxw dxe dzd (td, tt, sg) in
+       let r' :=
+         InitSym.up_phase dx dz grad (InitSym.mirror_z (nz - 1) (nx - 1) slow) vzero xsa xsi 
+           (IZR (nz - 1) - zsa) (nz - 2 - zsi) dxw dxe dzd
+           (td', InitSym.mirror_z nz nx tt, InitSym.mirror_sgn_z nz nx sg) in
+       (forall i j : Z,
+        (0 <= i < nz)%Z -> (0 <= j < nx)%Z -> get 0 (snd (fst r')) [i; j] = get 0 (snd (fst r)) [(nz - 1 - i)%Z; j]) /\
+       (grad = true ->
+        forall i j : Z,
+        (0 <= i < nz)%Z ->
+        (0 <= j < nx)%Z ->
+        get 0%Z (snd r') [i; j; 0%Z] = (- get 0 (snd r) [nz - 1 - i; j; 0])%Z /\
+        get 0%Z (snd r') [i; j; 1%Z] = get 0%Z (snd r) [(nz - 1 - i)%Z; j; 1%Z]).
+Proof. exact @InitSym.up_is_mirror_of_down_explicit. Qed.
+
 Print Assumptions C02_column_upper_bound_down.
 Print Assumptions C02_column_upper_bound_up.
 Print Assumptions C02_layered_grid_line_upper.
+Print Assumptions C02_init_is_four_copies.
+Print Assumptions C02_init_west_reads_the_mirror_cells.
+Print Assumptions C02_init_down_reads_the_transposed_cells.
+Print Assumptions C02_init_up_reads_the_mirror_cells.
